@@ -158,7 +158,17 @@ pub fn run(case: &Value) -> Vec<String> {
         if fail == "out_dir_missing" && outsel != "explicit_other" {
             // only meaningful with an explicit output elsewhere: treat as no failure for the other output choices
         }
+        // what the library makes of the files (needed early: some pre-existing outputs are built from it)
+        let (lib, lib_bytes) = lib_run(&input_abs);
         let old: Vec<u8> = match pre {
+            "empty" => vec![],
+            "prefix_of_new" if lib == "ok" => lib_bytes[..lib_bytes.len() / 2].to_vec(),
+            "new_plus_tail" if lib == "ok" => {
+                let mut v = lib_bytes.clone();
+                v.extend_from_slice(b"\n// END-OF-OLD-MARKER left over from a longer file\n");
+                v
+            }
+            "prefix_of_new" | "new_plus_tail" => b"// old output of a failing input\n".to_vec(),
             "shorter" => b"// old output\n".to_vec(),
             "longer" => {
                 let mut v = b"// old, longer output\n".to_vec();
@@ -174,8 +184,6 @@ pub fn run(case: &Value) -> Vec<String> {
         }
         let mut before = BTreeSet::new();
         list_files(&root, &mut before);
-        // what the library does with the same files
-        let (lib, lib_bytes) = lib_run(&input_abs);
         // working directory and spelling
         let cwd = match cwd_kind {
             "indir" => indir.clone(),
